@@ -78,6 +78,7 @@ class ExactlyOne(Contract):
 
 class FixGateType(Contract):
     relpath, qualname = CS, 'CircuitFinderSat.fix_gate'
+    frame_fields = (('CircuitFinderSat', '_need_check_db'),)
 
     def __init__(self, t):
         self.t = t
@@ -102,6 +103,7 @@ class FixGateType(Contract):
 class FixGatePred(Contract):
     """fix_gate with one predecessor only: every pair of predecessors not containing it is excluded, nothing else"""
     relpath, qualname = CS, 'CircuitFinderSat.fix_gate'
+    frame_fields = (('CircuitFinderSat', '_need_check_db'),)
 
     def __init__(self, which):
         self.which = which
@@ -119,10 +121,12 @@ class FixGatePred(Contract):
             if a != 1 and b != 1:
                 excl.append(z3.Not(val.f(pool[f's_3_{a}_{b}'])))
         yield ('excludes-exactly-pairs-without-it', o.fields['_cnf'].sat == z3.And([st['sat0']] + excl), {'witness': self.which + '-only'})
+        yield ('db-shortcut-disabled', z3.BoolVal(o.fields['_need_check_db'] is False))
 
 
 class ForbidWire(Contract):
     relpath, qualname, name = CS, 'CircuitFinderSat.forbid_wire', 'forbid_wire/1->3'
+    frame_fields = (('CircuitFinderSat', '_need_check_db'),)
 
     def setup(self, it, ctx):
         o, val, sat0 = finder(it, 2, 2)
@@ -133,6 +137,7 @@ class ForbidWire(Contract):
         pool = o.fields['_vpool'].d
         excl = [z3.Not(val.f(pool[f's_3_{min(a, 1)}_{max(a, 1)}'])) for a in range(3) if a != 1]
         yield ('excludes-exactly-pairs-with-the-wire', o.fields['_cnf'].sat == z3.And([st['sat0']] + excl))
+        yield ('db-shortcut-disabled', z3.BoolVal(o.fields['_need_check_db'] is False))
 
 
 def run(rep):
